@@ -613,13 +613,16 @@ void cmi_hashheap_reprioritize(const struct cmi_hashheap *hp,
     const uint64_t idx = cmi_hash_find_index(hp, hashkey);
     cmb_assert_release(idx != 0u);
 
-    /* Save a copy of the old values */
-    hp->heap[0] = hp->heap[idx];
+    /*
+     * Save a copy of the old values. Not in slot 0 of the heap, which holds
+     * the most recently dequeued item (the current event of the event queue).
+     */
+    const struct cmi_heap_tag old = hp->heap[idx];
 
     hp->heap[idx].dsortkey = dsortkey;
     hp->heap[idx].isortkey = isortkey;
 
-    if ((*hp->heap_compare)(&(hp->heap[0]), &(hp->heap[idx]))) {
+    if ((*hp->heap_compare)(&old, &(hp->heap[idx]))) {
         /* The old values should go before the new ones, item heading down */
         heap_down(hp, idx);
     }
